@@ -39,9 +39,11 @@ TIERS = {
     "quick": {"shards": 4, "cases": 1500, "timeout": 300},
     "thorough": {"shards": 16, "cases": 12000, "timeout": 3000},
 }
-FLOORS = {"quick": {"distinct_nontrivial": 2000, "left_recursive_rejected": 1500, "accepted_grammars": 2000,
+FLOORS = {"quick": {"parses_raised_lexical_error": 800, "texts_with_a_character_no_token_matches": 1100,
+                    "distinct_nontrivial": 2000, "left_recursive_rejected": 1500, "accepted_grammars": 2000,
                     "hidden_cycle_orders_seen": 62, "pushes_observed": 100000, "right_recursion_grammars_accepted": 800},
-          "thorough": {"distinct_nontrivial": 50000, "left_recursive_rejected": 40000,
+          "thorough": {"parses_raised_lexical_error": 3200, "texts_with_a_character_no_token_matches": 4500,
+                       "distinct_nontrivial": 50000, "left_recursive_rejected": 40000,
                        "accepted_grammars": 50000, "hidden_cycle_orders_seen": 62, "right_recursion_grammars_accepted": 20000,
                        "pushes_observed": 3000000}}
 CEILINGS = {"quick": {"inconclusive_cases": 50}, "thorough": {"inconclusive_cases": 2000}}
